@@ -10,12 +10,12 @@ storage server, C22); repair itself is download (C02) followed by `upload` with 
 `VCfg.asIs` is the verifier as it was before the fix, `VCfg.repaired` the verifier as it is in /repo now (fix fb3513d =
 fixes/C45-verify-block-root.diff: the block hash tree root is taken from the validated share hash leaf).
 
-As built: 17 theorems (one `_partial`) — `verified_good_implies_all_valid` (+ `verified_good_counterexample` for the old verifier),
+As built: 18 theorems (one `_partial`) — `verified_good_implies_all_valid` (+ `verified_good_counterexample` for the old verifier),
 `healthy_iff_N_good`, `recoverable_iff_k_good`, `corrupt_shares_listed`, `noverify_believes_servers`,
 `recoverable_unhealthy_repair_attempted`, `repair_uses_original_parameters`, `repair_regenerates_identical_shares`,
 `post_repair_healthy_implies_N_good`, `repair_never_alters_good_shares`, `repair_output_is_encoder_output`,
 `repaired_share_passes_ct_stage`, `repaired_share_passes_block_hash_stage`, `repaired_share_passes_share_hash_stage`,
-`repaired_share_block_accepted`, `readable_from_repaired_shares_partial`. Further model parts: `checkServerShares` /
+`repaired_share_block_accepted`, `repaired_share_block_fetch_chain`, `readable_from_repaired_shares_partial`. Further model parts: `checkServerShares` /
 `checkNoVerify`, `repairDecision`, `repairParams`, `gatherRepairResults`, `corruptLocators`. Driver lean/Drv/C45.lean
 (`veup`, `fmt`, `fmtlists`, `noverify`, `verify`, `repairdecision`, `repairparams`, `postrepair`, `repair`) ties each
 of them to the code. Only partially proved (monitor end to end): that the file can be read from the repaired shares alone. -/
@@ -27,7 +27,7 @@ of them to the code. Only partially proved (monitor end to end): that the file c
 | a check is healthy exactly when N distinct good shares are found | `healthy_iff_N_good` (+ the good list is duplicate-free and is exactly the share numbers some server's result lists) |
 | … recoverable exactly when at least k are | `recoverable_iff_k_good` |
 | repair using only the verify-cap produces shares that validate under the original read-cap | `repair_uses_original_parameters` (k, N from the cap, segment size from the VALIDATED UEB — seed C45-b) + `repair_regenerates_identical_shares` (a completed repair read re-publishes exactly the original cap, UEB, trees and blocks); neither uses the read key |
-| … so the file can be read from the repaired shares alone | PARTIAL: `repair_output_is_encoder_output` (repaired shares = the uploader's shares, parameters included), `repaired_share_passes_share_hash_stage`, `repaired_share_passes_block_hash_stage`, `repaired_share_passes_ct_stage`, `repaired_share_block_accepted` (completeness of every validation stage of `Share._satisfy_*` for such shares: share hash chain, block hash tree, crypttext hash tree, data block; C35 `tryBody_complete`), `readable_from_repaired_shares_partial` (one share set; a read over it writes only a prefix of the file and `done` ⇒ the file). Missing links named there: composing the four stage theorems along one fetch (the invariant that every reachable node's trees are closed partial copies is proved for agreement — `NodeInv`, `TreeOK` — but closedness is carried as a hypothesis), decoding (`Tahoe.C36.immutable_any_k_blocks_decode_rs256`), termination (C03/C46); end to end this clause stays with the monitor (read from repaired shares only) |
+| … so the file can be read from the repaired shares alone | PARTIAL: `repair_output_is_encoder_output` (repaired shares = the uploader's shares, parameters included), `repaired_share_passes_share_hash_stage`, `repaired_share_passes_block_hash_stage`, `repaired_share_passes_ct_stage`, `repaired_share_block_accepted` (completeness of every validation stage of `Share._satisfy_*` for such shares: share hash chain, block hash tree, crypttext hash tree, data block; C35 `tryBody_complete`), `repaired_share_block_fetch_chain` (block-hash stage then data stage chained on the node the first leaves behind; `Closed` and `TreeOK` are stage invariants), `readable_from_repaired_shares_partial` (one share set; a read over it writes only a prefix of the file and `done` ⇒ the file). Missing links named there: composing all four stage theorems along one whole `satisfy` run and over a fetch history (the two block-tree stages are chained: `repaired_share_block_fetch_chain`; closedness is a proved stage invariant for the block trees — `stageBlockHashes_keeps_closed`, `stageData_keeps_closed` — and still a hypothesis for the share and crypttext trees), decoding (`Tahoe.C36.immutable_any_k_blocks_decode_rs256`), termination (C03/C46); end to end this clause stays with the monitor (read from repaired shares only) |
 | … and it never alters existing good shares | `repair_never_alters_good_shares` (abstract storage behaviour; refinement by the storage server is C22) |
 | a recoverable, unhealthy file gets a repair attempt, whatever the number of servers holding the good shares (seed C45-d) | `recoverable_unhealthy_repair_attempted` |
 | the post-repair results describe the grid after the repair (seed C45-c) | `post_repair_healthy_implies_N_good` |
@@ -303,6 +303,45 @@ theorem repaired_share_block_accepted (E : Env H) (cfg : Cfg) (prm : Params) (se
   rw [← hblock]
   exact honest_block_accepted S.strict pick shnum segnum v nd hk hT hlen hag hcl hL hfull hsize hleaf
 
+/-- **repaired_share_block_fetch_chain** (the two block-tree stages chained on one node): on a download node that has
+    accepted the UEB and whose block hash tree for share `shnum` is an anchored, closed partial copy of the repairer's
+    tree (`TreeOK`, `Closed` — both invariants of every stage: `stageBlockHashes_sound`, `stageData_sound`,
+    `stageBlockHashes_keeps_closed`, `stageData_keeps_closed`) without the leaf of `segnum`, a repaired (or old) share
+    that answers the block hash request with `Prep`'s nodes and the block request with `Prep`'s block gets through
+    `_satisfy_block_hash_tree` AND THEN, on the node that stage leaves behind, through `_satisfy_data_block`: the
+    fetcher receives exactly the published block. -/
+theorem repaired_share_block_fetch_chain (E : Env H) (cfg : Cfg) (prm : Params) (ser : UEB H → Bytes)
+    (encode : Nat → Bytes → Nat → Bytes) (ct : Bytes) (sz : Sizes) (S : Setup E cfg prm ser encode ct sz)
+    (Prep : Published H) (hrep : Prep = upload E prm encode ser ct)
+    (pick : List Nat → Nat) (shnum segnum : Nat) (v : View H) (nd : Node H) (u : UEB H)
+    (hk : nd.known = some (u, sz))
+    (hok : TreeOK E.ops (Prep.blockT shnum) (nd.blockTree shnum sz.numSegs))
+    (hcl : Closed (nd.blockTree shnum sz.numSegs)) (hseg : segnum < sz.numSegs)
+    (hnew : Base.Merkle.get (nd.blockTree shnum sz.numSegs) (firstLeafNum sz.numSegs + segnum) = none)
+    (hhonest : ∀ i, i < (Prep.blockT shnum).length → v.blockHashes i = Base.Merkle.get (Prep.blockT shnum) i)
+    (hblock : v.block = Prep.block shnum segnum)
+    (hsize : ¬ (v.block.isEmpty ∨
+      v.block.length ≠ (if segnum + 1 = sz.numSegs then sz.tailBlockSize else sz.blockSize))) :
+    (stageBlockHashes E cfg pick shnum segnum v nd).1 = none ∧
+    (stageData E cfg pick shnum segnum v (stageBlockHashes E cfg pick shnum segnum v nd).2).1
+      = some (.block (Prep.block shnum segnum)) := by
+  have h1 := repaired_share_passes_block_hash_stage E cfg prm ser encode ct sz S Prep hrep pick shnum segnum v nd u
+    hk hok.2.1 hok.2.2.1 hcl hseg hnew hhonest
+  have hL : firstLeafNum sz.numSegs + segnum < (nd.blockTree shnum sz.numSegs).length := by
+    rw [hok.2.1, hrep, upload_blockT, Integrity.build_length]
+    have hbl : (blockLeaves E prm encode ct shnum).length = sz.numSegs := by
+      rw [calcSizes_numSegs S.sizes]; simp [blockLeaves, segments]
+    rw [hbl]
+    have := roundupPow2_ge sz.numSegs
+    have := roundupPow2_pos sz.numSegs
+    unfold firstLeafNum; omega
+  obtain ⟨hk1, hok1⟩ := stageBlockHashes_sound (cfg := cfg) S.strict S.inj pick shnum segnum v nd hk hok
+  have hcl1 := stageBlockHashes_keeps_closed S.strict pick shnum segnum v nd hk hok hcl
+  have hfull := stageBlockHashes_accept_full S.strict pick shnum segnum v nd hk hL h1
+  refine ⟨h1, ?_⟩
+  exact repaired_share_block_accepted E cfg prm ser encode ct sz S Prep hrep pick shnum segnum v _ u
+    (by rw [hk1]; exact hk) hok1.2.1 hok1.2.2.1 hcl1 hseg (fun i hi => hfull i (Or.inl hi)) hblock hsize
+
 /-- **readable_from_repaired_shares_partial**.  Full statement (NOT proved): after a repair that reports success,
     every read that is offered any k distinct shares out of the old and the repaired ones ends `done` with the
     file's bytes.  Proved here: (1) old and repaired shares are one share set of the original publication
@@ -311,8 +350,9 @@ theorem repaired_share_block_accepted (E : Env H) (cfg : Cfg) (prm : Params) (se
     (C02 `read_prefix_correct`, for arbitrary answers, hence also for repaired shares).  Missing links, each a
     theorem elsewhere that is not yet instantiated on this model: chaining the four per-stage acceptance theorems
     (`repaired_share_passes_share_hash_stage`, `repaired_share_passes_block_hash_stage`,
-    `repaired_share_passes_ct_stage`, `repaired_share_block_accepted`) along one fetch, which needs closedness of the
-    node's trees as an invariant of every reachable node (agreement with the published trees already is one); decoding of any k genuine blocks (`Tahoe.C36.immutable_any_k_blocks_decode_rs256`,
+    `repaired_share_passes_ct_stage`, `repaired_share_block_accepted`) along one whole fetch (the block-hash and data stages are chained in
+    `repaired_share_block_fetch_chain`; closedness is a proved stage invariant for the block trees, not yet for the
+    share and crypttext trees); decoding of any k genuine blocks (`Tahoe.C36.immutable_any_k_blocks_decode_rs256`,
     `rs256_mds`, for `decode` := zfec); termination with k good shares (C03 / C46). -/
 theorem readable_from_repaired_shares_partial (E : Env H) (cfg : Cfg) (prm : Params) (ser : UEB H → Bytes)
     (encode : Nat → Bytes → Nat → Bytes) (ct : Bytes) (sz : Sizes) (S : Setup E cfg prm ser encode ct sz)
@@ -390,6 +430,19 @@ example :
       = some (.block ((upload C02.exE C02.exPrm C02.exEncode C02.exSer C02.exCt).block 0 1)) ∧
     (stageData C02.exE Cfg.asIs (fun _ => 0) 0 1
       { C02.exHonest 1 with block := (C02.exHonest 1).block.map (· + 1) } nd).1 = some .corrupt := by decide
+
+/-- non-vacuity of `repaired_share_block_fetch_chain`: on the node that accepted the UEB and seeded the block hash
+    root of share 0 (root present, leaf of segment 1 absent) the honest share gets through both stages in sequence
+    and the fetcher receives the published block of segment 1 -/
+example :
+    let P := upload C02.exE C02.exPrm C02.exEncode C02.exSer C02.exCt
+    let nd := (satisfy C02.exE Cfg.asIs (fun _ => 0) P.cap (Node.init SymH P.cap) 0 0
+                { C02.exHonest 0 with blockHashes := fun _ => none }).2
+    let nd1 := (stageBlockHashes C02.exE Cfg.asIs (fun _ => 0) 0 1 (C02.exHonest 1) nd).2
+    Base.Merkle.get (nd.blockTree 0 2) 0 = Base.Merkle.get (P.blockT 0) 0 ∧
+    Base.Merkle.get (nd.blockTree 0 2) (firstLeafNum 2 + 1) = none ∧
+    (stageBlockHashes C02.exE Cfg.asIs (fun _ => 0) 0 1 (C02.exHonest 1) nd).1 = none ∧
+    (stageData C02.exE Cfg.asIs (fun _ => 0) 0 1 (C02.exHonest 1) nd1).1 = some (.block (P.block 0 1)) := by decide
 
 /-- the regenerated share of the example verifies good under the original cap (both verifiers) -/
 example :
